@@ -372,7 +372,7 @@ Section Ckpt.
     Definition pad_ins (n : nat) (ins : list (binput (F:=F))) : list (binput (F:=F)) :=
       firstn n (ins ++ repeat (mkI None []) n).
 
-    Definition has_grad (i : binput (F:=F)) : bool := match i_grad i with Some _ => true | None => false end.
+    Definition ghas_grad (i : binput (F:=F)) : bool := match i_grad i with Some _ => true | None => false end.
 
     Definition set_blk (pb : pblock) (b : block (F:=F)) : pblock := mkPB (pb_owner pb) (pb_name pb) b.
 
@@ -382,15 +382,21 @@ Section Ckpt.
       let c := eff_cfg g1 in
       let ins := pad_ins (List.length (g_blocks g)) (gi_ins e) in
       let '(t', bs', _) := group_step Op c (gi_hints e) (g_step g) (map pb_blk (g_blocks g)) ins in
-      let stepped := existsb has_grad ins in
+      let stepped := existsb ghas_grad ins in
       let v := g_vol g in
       (* fault-free continuation: a successful amortized computation resets the failure counter *)
       let fail' := if stepped && perform_amortized c t'
-                   then map2 (fun f i => if has_grad i then 0 else f) (v_fail v) ins else v_fail v in
-      let vol' := mkV (Some (map has_grad ins)) fail'
+                   then map2 (fun f i => if ghas_grad i then 0 else f) (v_fail v) ins else v_fail v in
+      let vol' := mkV (Some (map ghas_grad ins)) fail'
                       (if stepped then Some (bias_corr2 Op (c_biascorr c) (c_beta2 c) t' (h_bc2 (gi_hints e))) else v_bc2 v)
                       (if stepped then Some (h_bc2g (gi_hints e)) else v_bc2g v) in
       mkCG (g_ctor g) opts (g_hasmom g) (g_hasfilt g) (g_pids g) (map2 set_blk (g_blocks g) bs') t' vol'.
+
+    (* the queries the step sends to the matrix oracle (per block) *)
+    Definition gqueries (e : ginput) (g : cgroup) : list (list (query (F:=F))) :=
+      let opts := match gi_edit e with Some c => c | None => g_opts g end in
+      snd (group_step Op (eff_cfg (set_opts g opts)) (gi_hints e) (g_step g) (map pb_blk (g_blocks g))
+                      (pad_ins (List.length (g_blocks g)) (gi_ins e))).
 
     (* DistributedShampoo.step(): every group in turn, each with its own inputs (missing inputs: no gradients) *)
     Fixpoint ostep (s : opt_state) (es : list ginput) : opt_state :=
